@@ -400,6 +400,14 @@ def oracle(c: dict, impl_out: str, rfc_out: str, theirs_set: str) -> list[tuple[
     return fails
 
 
+def okey_new(seen: set, c: dict) -> bool:
+    k = 'wf:' + json.dumps(c, sort_keys=True)
+    if k in seen:
+        return False
+    seen.add(k)
+    return True
+
+
 def nontrivial_rule(impl_out: str, theirs_set: str | None) -> bool:
     if not impl_out.startswith('neg ') or theirs_set is None:
         return False
@@ -425,11 +433,10 @@ def full_cfg(partial: dict) -> dict:
     return c
 
 
-def build_cases(ctx: Ctx) -> list[dict]:
+def build_cases(ctx: Ctx, n_random: int, first: bool) -> list[dict]:
     """Phase 1: choose configurations and peer OPENs; the bodies come from the Lean reference encoder."""
     rng = ctx.rng
     thorough = ctx.tier != 'quick'
-    n_random = 900 if not thorough else 40000
     cases: list[dict] = []
     enc_lines: list[str] = []
 
@@ -440,14 +447,14 @@ def build_cases(ctx: Ctx) -> list[dict]:
             enc_lines.append(line)
         cases.append(case)
 
-    for j in load_corpus():
+    for j in load_corpus() if first else []:
         c = full_cfg(j['cfg'])
         if 'body' in j:
             add(c, None, 'corpus:' + j['name'], body=bytes.fromhex(j['body']), **({'expect_param': j['expect_param']} if 'expect_param' in j else {}))
         else:
             add(c, 'nego enc ' + j['enc'], 'corpus:' + j['name'])
     # boundary lengths of the parameter block: 253..257 in every format that can carry them
-    for target in (253, 254, 255, 256, 257, 300):
+    for target in (253, 254, 255, 256, 257, 300, 65000):
         for fmt in ('0', '1', 'a'):
             c = gen_cfg(rng, thorough)
             hint: dict = {}
@@ -463,7 +470,7 @@ def build_cases(ctx: Ctx) -> list[dict]:
             groups = '/'.join(caps + pad)
             add(c, f'nego enc {fmt} {fixed[0]} {fixed[1]} {fixed[2]} {fixed[3]} {groups}', f'boundary-{target}-fmt{fmt}')
     # our own OPEN around the RFC 9072 switch: many families
-    for k in (28, 29, 30, 31, 32):
+    for k in (28, 29, 30, 31, 32) if first else ():
         c = negorig.default_cfg()
         c['fam'] = [[1 + (i % 2), 1 + i // 2] for i in range(k)]
         c['las'] = 70000 if k % 2 else 65000
@@ -553,7 +560,23 @@ def run(ctx: Ctx) -> None:
         '(4-octet AS, refresh, extended message, extended next hop, ADD-PATH in one direction) is in force on both sides; '
         'distinct = distinct (configuration, peer body)'
     )
-    cases = build_cases(ctx)
+    total = 20000 if ctx.tier == 'quick' else 400000
+    chunk = 4000
+    state: dict = {'seen': set(), 'wf_ours': [0, 0]}
+    done_n = 0
+    first = True
+    while done_n < total:
+        if ctx.time_left() < 20:
+            ctx.notes.append(f'budget reached after {ctx.evaluations} cases')
+            break
+        run_chunk(ctx, build_cases(ctx, min(chunk, total - done_n), first), state)
+        done_n += chunk
+        first = False
+    ctx.extra['our_open_wellformed'] = f'{state["wf_ours"][0]}/{state["wf_ours"][1]} configurations have an OPEN with a wire form (wfOpen, the hypothesis of our_open_roundtrip)'
+
+
+def run_chunk(ctx: Ctx, cases: list[dict], state: dict) -> None:
+    seen = state['seen']
     # Phase 2: the real code
     lines: list[str] = []
     for case in cases:
@@ -576,7 +599,6 @@ def run(ctx: Ctx) -> None:
         lines.append(f'nego rfc {c["las"]} {c["pas"]} {c["rid"]} {impl["ours"].hex() or "-"} {bh}')
     done = [case for case in cases if 'li' in case]
     out = common.run_driver('drv_nego', lines) if ctx.driver_ok and lines else None
-    seen: set = set()
     for case in done:
         c, body, impl = case['cfg'], case['body'], case['impl']
         io = impl['out']
@@ -614,6 +636,10 @@ def run(ctx: Ctx) -> None:
         if 'theirs_set' in impl and m_set != impl['theirs_set']:
             ctx.count('disagreement:set')
             ctx.disagreements.append(Disagreement('nego-set', replay, m_set, impl['theirs_set']))
+        m_our, m_wf = m_our.split(' ') if ' ' in m_our else (m_our, '?')
+        if okey_new(seen, c):
+            state['wf_ours'][1] += 1
+            state['wf_ours'][0] += int(m_wf == '1')
         if m_our != (impl['ours'].hex() or '-'):
             ctx.count('disagreement:our')
             ctx.disagreements.append(Disagreement('nego-our', {'cfg': c}, m_our, impl['ours'].hex()))
